@@ -338,6 +338,23 @@ static void case_reduce(Tape &t, Ctx &cx)
     chk("sum2_:wrong", "a_real_sum2_ (strided)", a_real_sum2_(n, ps, c1), s2, 2 * s2);
     chk("dot:wrong", "a_real_dot", a_real_dot(n, p, q), d, 2 * da);
     chk("dot_:wrong", "a_real_dot_ (strided)", a_real_dot_(n, ps, c1, qs, c2), d, 2 * da);
+    {
+        // const inputs in read-only memory, ending flush against an inaccessible page
+        RoBlock rx(x.data(), sizeof(a_real) * n, sizeof(a_real)), ry(y.data(), sizeof(a_real) * n, sizeof(a_real));
+        if (rx.p && ry.p)
+        {
+            a_real const *xr = (a_real const *)rx.p, *yr = (a_real const *)ry.p;
+            chk("sum:wrong", "a_real_sum (read-only input)", a_real_sum(n, xr), s, s1);
+            chk("sum2:wrong", "a_real_sum2 (read-only input)", a_real_sum2(n, xr), s2, 2 * s2);
+            chk("dot:wrong", "a_real_dot (read-only inputs)", a_real_dot(n, xr, yr), d, 2 * da);
+            if (n) { LD m = a_real_mean(n, xr); if (!(fabsl(m - s / n) <= (n + 3) * U_ * s1 / n)) { cx.fail("mean:wrong", "a_real_mean on a read-only input (n=%u) = %.17Lg, defining formula gives %.17Lg", n, m, s / n); } }
+            if (n)
+            {
+                LD rn = a_real_norm(n, xr), rr = sqrtl(s2);
+                if (!(fabsl(rn - rr) <= (n + 4) * U_ * rr)) { cx.fail("norm:inaccurate", "a_real_norm on a read-only input (n=%u) = %.17Lg, reference %.17Lg", n, rn, rr); }
+            }
+        }
+    }
     // both operands in one block: the same vector twice (x.x), and x / y interleaved in one array (stride 2 each)
     chk("dot:wrong", "a_real_dot (same vector twice)", a_real_dot(n, p, p), s2, 2 * s2);
     chk("dot_:wrong", "a_real_dot_ (same strided vector twice)", a_real_dot_(n, ps, c1, ps, c1), s2, 2 * s2);
